@@ -8,7 +8,8 @@ request `["lp", c, A, b, minimize, eps, maxIter, tol, vtol, lpImpl, ipmImpl, ipm
   c, b : rationals `[num, den]`; A : rows of rationals; eps, tol… : rationals
   lpImpl / ipmImpl : `null` or `[status, x | null, obj | null]` (what solve_lp / solve_lp_interior returned)
 reply `[model, truth, lpChecks | null, ipmChecks | null]`
-  model    = `[status, x, obj | null, iters, phase1, near, certOk]`  (mirror run at the given eps, max_iter)
+  model    = `[status, x, obj | null, iters, phase1, near, certOk, artBasic, artDriven]`  (mirror run at the given
+             eps, max_iter; the last two: artificials still basic after phase 1 / pivoted out by the clean-up loop)
   truth    = `[verdict, opt | null, certOk]` : verdict of the exact run (eps = 0) and whether the verified
              checker `chkOptimal/chkInfeasible/chkUnbounded` accepted its certificate (verdict "NONE" if not);
              `opt` in the caller's sense
@@ -56,7 +57,8 @@ def handleLp (args : List Val) : Option String := do
     else ("NONE", none, false)
   let opt := if verdict == "OPTIMAL" then opt else none
   let model := Val.arr [.str o.status.name, .ofRats o.x, .ofOpt .ofRat o.objective, .int o.iters,
-    .bool o.phase1, .bool o.near, .bool (certifies P o)]
+    .bool o.phase1, .bool o.near, .bool (certifies P o), .int (artCounters c A b mn eps mi).1,
+    .int (artCounters c A b mn eps mi).2]
   let truth := Val.arr [.str verdict, .ofOpt .ofRat opt, .bool tOk]
   let chk (i : Impl) (tf to : Rat) (last : Vec → Bool) : Val :=
     match i.x with
@@ -159,12 +161,26 @@ def handleDetbin (args : List Val) : Option String := do
     pure (Val.arr [.bool (f (eps * 999 / 1000)), .bool (f eps), .bool (f (eps * 1001 / 1000))])
   pure (Val.arr out).render
 
+/-! request `["artscreen", eps, maxIter, lps]`, `lps` = list of `[c, A, b, minimize]`
+reply: per LP `[artBasic, artDriven]` (pre-screening of generated candidates; the model is cheap) -/
+def handleArtscreen (args : List Val) : Option String := do
+  let [eps, mi, lps] := args | none
+  let eps ← eps.toRat?; let mi ← mi.toNat?
+  let lps ← lps.toArr?
+  let out ← lps.mapM fun (v : Val) => do
+    let [c, A, b, mn] ← v.toArr? | none
+    let c ← c.toRats?; let A ← A.toRatss?; let b ← b.toRats?; let mn ← mn.toBool?
+    let k := artCounters c A b mn eps mi
+    pure (Val.arr [.int k.1, .int k.2])
+  pure (Val.arr out).render
+
 def handle (line : String) : String :=
   match request line with
   | some ("lp", args) => (handleLp args).getD (err "bad arguments")
   | some ("milp", args) => (handleMilp args).getD (err "bad arguments")
   | some ("bnb", args) => (handleBnb args).getD (err "bad arguments")
   | some ("detbin", args) => (handleDetbin args).getD (err "bad arguments")
+  | some ("artscreen", args) => (handleArtscreen args).getD (err "bad arguments")
   | _ => err "bad request"
 
 end Solvor.Lp
